@@ -796,12 +796,15 @@ def directed_personas(year, seed, n):
                                       'box_5': round(r.uniform(50, 900), 2), 'box_7': 0.0, 'box_16_1': 0.0}])
         out.append(('F2q', p))
         # N.C. return with a small overpayment and designations on lines 29-32 around (also above) it
-        st_ = r.choice(['S', 'MFJ', 'HOH'])
-        w_ = round(r.uniform(40000, 90000), 2)
-        p = plain_persona(year, st_, w_, key=f'dirncover:{seed}:{k}', deps_odc=1 if st_ == 'HOH' else 0, nc=True)
+        # (the N.C. tax is figured here from the published rate and standard deduction so that the overpayment is a known small amount:
+        # 60 with 4 x 25 designated - more than was overpaid - for even k, 140 for odd k)
+        st_ = r.choice(['S', 'MFJ'])
+        w_ = float(r.randint(40000, 90000))
+        p = plain_persona(year, st_, w_, key=f'dirncover:{seed}:{k}', nc=True)
+        nctax_ = round(max(0.0, w_ - float(_stat.amount('nc_standard_deduction', year, st_))) * float(_stat.amount('nc_rate', year, st_)))
         for d in p.w2:
-            d['box_17'] = round(w_ * r.uniform(0.025, 0.05), 2)
-        p.ncv['refund_contrib'] = float(r.choice([25, 100, 250, 600]))
+            d['box_17'] = float(nctax_ + (60 if k % 2 == 0 else 140))
+        p.ncv['refund_contrib'] = 25.0
         out.append(('F8o', p))
         # joint N.C. return with N.C. tax withheld on jointly owned interest / dividend statements
         p = plain_persona(year, 'MFJ', [round(r.uniform(30000, 70000), 2), round(r.uniform(20000, 50000), 2)], key=f'dirncjoint:{seed}:{k}', deps_ctc=r.choice([0, 1]), nc=True,
